@@ -33,7 +33,7 @@ func init() {
 			return 5760
 		},
 		Run:        runC17,
-		Required:   []string{"runs.in_process", "runs.same_input_objects", "runs.cross_process", "scenarios.random_population", "scenarios.spawned", "epochs.compared"},
+		Required:   []string{"runs.in_process", "runs.same_input_objects", "runs.copied_options", "runs.cross_process", "scenarios.random_population", "scenarios.spawned", "epochs.compared"},
 		TimeoutSec: func(tier string) int { return 7200 },
 	})
 }
@@ -228,6 +228,34 @@ func runC17(c *Ctx, idx int) {
 		c.Count("scenarios.random_population", 1)
 	} else {
 		c.Count("scenarios.spawned", 1)
+	}
+	// a by-value copy of the options object that has just been used, with two settings changed, against options built from
+	// scratch with the same values: equal settings are equal inputs, whatever the object went through before
+	if first.errText == "" {
+		tuned := *sc.Opts
+		scA := *sc
+		scA.Opts = &tuned
+		scB, _ := c17Scenario(c.Seed, idx)
+		for _, o := range []*neat.Options{scA.Opts, scB.Opts} {
+			o.CompatThreshold = sc.Opts.CompatThreshold*0.5 + 0.1
+			o.PopSize = sc.Opts.PopSize + 1
+		}
+		if scA.Ctor == ctorSpawn {
+			scA.Start = scB.Start // a start genome of its own as well
+		}
+		ra, rb := c17Execute(&scA, libSeed), c17Execute(scB, libSeed)
+		c.Count("runs.copied_options", 1)
+		if ra.errText != rb.errText {
+			c.Violate("in-process/error", detail(), "a run on a changed copy of the used options ended with %q, the run on options built anew with the same values with %q", ra.errText, rb.errText)
+			return
+		}
+		if d := firstDiff(ra.hashes, rb.hashes); d >= 0 {
+			dd := detail()
+			dd["copied_options_run"] = ra.hashes
+			dd["fresh_options_run"] = rb.hashes
+			c.Violate("in-process/copied-options", dd, "a run on a by-value copy of the used options object (two settings changed) diverges at epoch %d from the run on options built anew with the same values", d)
+			return
+		}
 	}
 	unrelatedWork(libSeed)
 	// the scenario object is rebuilt from scratch: nothing is shared with the first run
